@@ -147,6 +147,27 @@ Theorem C09_component_layout_is_sole_layout_translated_brandes_koepf : forall (A
 Proof. exact component_layout_x_is_sole_layout_translated. Qed.
 Print Assumptions C09_component_layout_is_sole_layout_translated_brandes_koepf.
 
+(* ---------- the same with autog.OrderingNoop (Model/PipelineNoop.v, Proofs/NoopComponents.v), every positioner, with the success of
+   the sole run PROVED and no crossing number reported on either side ---------- *)
+From Autog Require Import PipelineNoop NoopComponents.
+Theorem C09_component_layout_is_sole_layout_translated_noop_ordering : forall (A : Type) (eqA : A -> A -> bool),
+  (forall x y, eqA x y = true <-> x = y) ->
+  forall bk o fixed sizes es ids g0 ns eo xs k c,
+  Forall (fun p => length p = 2%nat) es -> BKTotal3.layout_x_options_ok A o es ->
+  populate A eqA es = Ok (ids, g0) ->
+  layout_n A eqA bk o fixed sizes es = Ok (ids, (ns, eo, xs)) ->
+  nth_error (components (apply_sizes A eqA fixed sizes ids g0)) k = Some c ->
+  exists ids1 ns1 eo1,
+    layout_n A eqA bk o fixed sizes (map (fun i => nth i es []) (g_E c)) = Ok (ids1, (ns1, eo1, [])) /\
+    exists gs sigma, inj sigma /\ smono sigma /\ collect_all o gs 0 = (ns, eo) /\
+      Forall2 (fun c g => exists x, layout_component_n bk o c = Ok (g, x))
+              (components (apply_sizes A eqA fixed sizes ids g0)) gs /\
+      Forall2 (onode_shifted sigma (shift_at o gs 0 k)) ns1 (comp_nodes o gs 0 k) /\
+      Forall2 (oedge_shifted sigma (shift_at o gs 0 k)) eo1 (comp_edges o gs 0 k) /\
+      layout_component_n bk o c = Ok (nth k gs graph0, None).
+Proof. exact component_layout_n_is_sole_layout_translated_total. Qed.
+Print Assumptions C09_component_layout_is_sole_layout_translated_noop_ordering.
+
 (* ---------- regenerated from the source on every run (translator): Layout never assigns to its own copy of the
    options after the Option functions were applied, so every connected component is processed with the same
    parameters whatever the rest of the input looks like (a per-component parameter derived from the whole graph, e.g.
